@@ -121,6 +121,17 @@ def pc_grid(ctx):
                             cases.append({"kind": "pc", "fam": fam, "n": n, "batch": list(bs), "cls": cls,
                                           "rank": rank, "etol": etol, "st_tol": st_tol, "vseed": rng.randrange(1 << 30)})
                             cnt += 1
+    # guard sweep: loose tolerances, where the 1-norm of the residual diagonal relative to the largest ORIGINAL diagonal
+    # entry decides the stopping iteration (other norms / normalisations / stale values stop somewhere else)
+    for fam in ("full", "toeplitz", "tied_kernel", "lowrank", "scaled"):
+        for n in ((4, 5, 6, 8) if ctx.quick else (4, 5, 6, 8, 10, 12)):
+            for bs in ((), (2,), (3,)):
+                for etol in (0.5, 0.25, 0.1, 0.05):
+                    use_setting = cnt % 4 == 3
+                    cases.append({"kind": "pc", "fam": fam, "n": n, "batch": list(bs), "cls": "Dense", "rank": n,
+                                  "etol": None if use_setting else etol, "st_tol": etol if use_setting else 1e-3,
+                                  "vseed": rng.randrange(1 << 30), "sweep": True})
+                    cnt += 1
     return cases
 
 
